@@ -295,6 +295,10 @@ EXT_FAMILIES = {
     # Monomial (sparse product helper of evaluable.factor)
     'monomial': dict(Ops='{"Monomial","Multiply","Add","Take","Inflate","Sum","InsertAxis","Power","LoopSum"}',
                      LeafSet='{1, 3, 4, 7, 8, 13, 15, 22, 24, 30, 39}', MaxOps=4, MaxNodes=8, MaxLeaves=4),
+    # Inflate through a rank-3 index block with unequal trailing lengths (strides of the raveled dofmap)
+    'inflate3': dict(Ops='{"Inflate","Transpose","Multiply","Negative","Add","Sum","IntToFloat"}', LeafSet='{59, 60}', MaxOps=3, MaxNodes=6, MaxLeaves=3),
+    # products of three factors u_i v_j C_ij: two sparse factors on disjoint axes and a dense factor coupling them
+    'uvc': dict(Ops='{"MacroUVC","Multiply","Negative","Add","Transpose"}', LeafSet='{8}', MaxOps=8, MaxNodes=14, MaxLeaves=6),
 }
 EXT_MARK = {
     'cx': lambda p: any(n['dt'] == 'c' for n in p),
@@ -304,7 +308,47 @@ EXT_MARK = {
     'dyn': lambda p: any(any(x < 0 for x in n['sh']) for n in p),
     'arglen': lambda p: any(n['op'] == 'LoopSumN' for n in p),
     'monomial': lambda p: any(n['op'] == 'Monomial' for n in p),
+    'inflate3': lambda p: any(n['op'] == 'Inflate' and len(p[n['d'][1] - 1]['sh']) == 3 for n in p),
+    'uvc': lambda p: sum(n['op'] == 'Multiply' for n in p) >= 2,
 }
+
+
+BASE_OPS = {"Negative", "Absolute", "Sign", "Reciprocal", "LogicalNot", "Multiply", "Add", "Minimum", "Maximum", "FloorDivide", "Mod", "Equal", "Less", "Greater",
+            "Power", "BoolToInt", "IntToFloat", "InsertAxis", "Transpose", "Sum", "Product", "Take", "TakeDiag", "Diagonalize", "Inflate", "Ravel", "Unravel",
+            "RavelIndex", "Choose", "InRange", "Determinant", "Inverse", "Polyval", "LoopSum", "LoopConcat"}
+
+
+def _family_ops(fam):
+    """constructor names of a family, the ones outside the base vocabulary first"""
+    import re
+    ops = [o for o in re.findall(r'"(\w+)"', fam.get('Ops', '')) if not o.startswith('Macro')]
+    return [o for o in ops if o not in BASE_OPS] + [o for o in ops if o in BASE_OPS]
+
+
+def select_covering(programs, k, rng, ops, need_arg=False):
+    """like select(), but first makes sure that every constructor of `ops` (in that priority order) occurs in at least one
+    selected program, as far as k allows: a small sample must not miss a constructor of the family"""
+    ranked = select(programs, len(programs), rng, need_arg=need_arg)
+    chosen, seen = [], set()
+    for op in ops:
+        if len(chosen) >= k:
+            break
+        if any(any(n['op'] == op for n in p) for p in chosen):
+            continue
+        for p in ranked:
+            c = canon(p)
+            if c not in seen and any(n['op'] == op for n in p):
+                seen.add(c)
+                chosen.append(p)
+                break
+    for p in ranked:
+        if len(chosen) >= k:
+            break
+        c = canon(p)
+        if c not in seen:
+            seen.add(c)
+            chosen.append(p)
+    return chosen
 
 
 def extended(rep, rng, tag, names, k_each, *, quick, need_arg=False, simulate=None, families=None):
@@ -318,6 +362,6 @@ def extended(rep, rng, tag, names, k_each, *, quick, need_arg=False, simulate=No
     for n, ps in zip(names, per):
         mark = next((EXT_MARK[m] for m in EXT_MARK if n.startswith(m)), None)   # 'cxdiff', 'dynsparse', ... share the mark of their prefix
         ps = [p for p in ps if mark is None or mark(p)]
-        out[n] = select(ps, k_each, rng, need_arg=need_arg)
+        out[n] = select_covering(ps, k_each, rng, _family_ops(fams[n]), need_arg=need_arg)
         rep.constants['extended:' + n] = dict(generated=len(ps), selected=len(out[n]))
     return out
